@@ -30,7 +30,7 @@ ORDERS = [0, 1, 2, 3, 4, 5, 6, "max"]
 
 
 def shards(tier, seed):
-    return [{"shard": 0}]
+    return [{"shard": 0}, {"shard": 1, "repo_tests": ["tests/unit/test_variational_wasserstein_distance.py"]}]
 
 
 def exact(exps, ref: bool) -> Fraction:
@@ -117,6 +117,10 @@ def run_shard(spec, R):
     attach_post(q, "gauss_reference_cell", post_ref, R)
     attach_post(q, "reference_cell_corners", post_corners, R)
 
+    if spec.get("repo_tests"):
+        from vf.ambient import run_repo_tests
+
+        return run_repo_tests(R, spec["repo_tests"])
     for dim in (1, 2, 3):
         for order in ORDERS:
             for fn in ("gauss", "gauss_reference_cell"):
